@@ -202,7 +202,9 @@ def run(ctx: Ctx) -> None:
                 ctx.violation(("the outcome of an expression written with packages differs from the outcome of the expression they abbreviate" if kind == "as written" else
                                ("redundant brackets" if kind == "brackets" else "swapping the operands of an operator") + " change the outcome of an expression written with packages"),
                               {"expression": variants[0][1], "variant": sv, "packages": table, "rc": a, "unabbreviated": T.render(e, T.Style(ctx.rng, "min", "upper", "one")).strip(),
-                               "outcome_unabbreviated": repr(ref), "variant_outcome": repr(ov)}, key=f"pkg-{kind}:{variants[0][1]}")
+                               "outcome_unabbreviated": repr(ref), "variant_outcome": repr(ov)},
+                              # inside K1's class validity depends on how Lark happens to group a same-operator run: that is the known finding, not a new one
+                              key=K1_KEY if (in_k1_class(e) and "InvalidExpressionError" in (ref, ov)) else f"pkg-{kind}:{variants[0][1]}")
                 break
 
     # K1 witness, replayed on every run
